@@ -13,6 +13,9 @@ CHECKS = {
 }
 CHECKS.update({
  # NEW-ENTRIES-HERE
+ "C12": (True, "model_checking", "stateless model checking of the real code under a cooperative scheduler (preemption-bounded exploration of all schedules by prefix replay) with vector-clock happens-before checking of generated access hooks; auxiliary free-running -race pass",
+         "The library is rebuilt (go build -overlay) with sync replaced by a scheduler shim and with generated read/write hooks on package-level variables and pointer-receiver objects. Ten three-thread scenarios that are made to collide on the registries, the bank pool, shared codecs and the timezone cache are explored over all schedules with at most 2 (3 thorough) preemptions at synchronisation granularity, and again with every hooked access as a scheduling point; every Pool.Get answer is a choice; executions are independent (registries and caches are reset by generated hooks) and reproducible (a divergence while replaying a prefix is a hard harness error). Each schedule is checked for unordered conflicting accesses, deadlock and result equivalence with a sequential order. The same bodies also run free on 16 goroutines under Go's race detector.",
+         "Sequentially consistent interleavings; syntactic instrumentation (errs towards 'read'); -race pass is sampling and auxiliary only.", "DESIGN.md §4 C12"),
  "C10": (True, "model_checking", "explicit-state BFS over real ResourceBank/ReadBuf operation sequences with pool recycling as an explored choice (sync shim via build overlay), shadow-heap model; exhaustive retention policies over ReadFile",
          "The library is rebuilt with its sync import replaced by a shim whose Pool.Get answer is chosen by the explorer, so recycling of banks is enumerated instead of left to the runtime. Bank level: BFS over operation sequences (depth 6/7) on the real banks with a shadow heap checked after every step (zeroed, disjoint, intact). File level: every retention/close policy of the callback over 4-record multi-block files of each codec, with pool answers explored to a deviation bound; retained shallow copies must stay equal to deep copies while their bank is open.",
          "API misuse excluded; fill-level classes in the canonical state; shim pool is a superset of sync.Pool behaviour.", "DESIGN.md §4 C10"),
